@@ -103,6 +103,12 @@ func c16RunWrap(sc c16Wrap) (vs []ev.V) {
 			break
 		}
 	}
+	if strings.ContainsAny(msg, "\r\n") {
+		// go-smtp writes the text with one PrintfLine: what follows a line break is a line of its own on the wire, without a
+		// basic or an enhanced code, which the client takes for (the start of) the reply to its next command - and the text
+		// is chosen by whoever the error came from (a downstream server's multi-line refusal is joined with "\n")
+		vs = append(vs, ev.Vf("wrap:line-break-in-reply-text", "%s: the reply text contains a line break, the rest goes out as a line without any code", desc))
+	}
 	if sc.Mangle {
 		for i := 0; i < len(msg); i++ {
 			if msg[i] >= 0x80 {
